@@ -2,6 +2,7 @@ package main
 
 import (
 	"fmt"
+	"go/ast"
 	"go/token"
 	"go/types"
 	"sort"
@@ -14,10 +15,10 @@ func init() {
 	register(&Rule{ID: "R08.3", Props: []string{"C08", "C01"}, Floor: 2,
 		Doc: "trailer order: table, then data size, then table size + type code; only big-endian byte order objects in encode/decode/format",
 		Run: runR08_3})
-	register(&Rule{ID: "R08.4", Props: []string{"C08"}, Floor: 18,
+	register(&Rule{ID: "R08.4", Props: []string{"C08"}, Floor: 24,
 		Doc: "Grow coverage (determinism): every byte of every buffer.Grow(n) region in internal/encode is written on every path before the encoder returns",
 		Run: func(c *Ctx, r *R) { runR08_4(c, r, "coverage") }})
-	register(&Rule{ID: "R08.6", Props: []string{"C08", "C01", "C10"}, Floor: 18,
+	register(&Rule{ID: "R08.6", Props: []string{"C08", "C01", "C10"}, Floor: 24,
 		Doc: "no stale region: nothing is written into a grown region after a later call that may grow (reallocate) the same buffer",
 		Run: func(c *Ctx, r *R) { runR08_4(c, r, "stale") }})
 }
@@ -236,6 +237,43 @@ func runR08_4(c *Ctx, r0 *R, part string) {
 			}
 		}
 	}
+	// vacuity guard independent of how the encoders are factored: every exported encoder reaches an analysed Grow
+	// (its own, or one in a helper of the package it passes the buffer to)
+	hasGrow := map[*ssa.Function]bool{}
+	for _, fn := range c.SrcFuncs("internal/encode") {
+		for _, call := range callsIn(fn, false) {
+			if isGrowCall(call) {
+				hasGrow[fn] = true
+			}
+		}
+	}
+	var reaches func(fn *ssa.Function, seen map[*ssa.Function]bool) bool
+	reaches = func(fn *ssa.Function, seen map[*ssa.Function]bool) bool {
+		if seen[fn] {
+			return false
+		}
+		seen[fn] = true
+		if hasGrow[fn] {
+			return true
+		}
+		for _, call := range callsIn(fn, false) {
+			if cal := call.Common().StaticCallee(); cal != nil && cal.Pkg == fn.Pkg && cal.Blocks != nil && reaches(cal, seen) {
+				return true
+			}
+		}
+		return false
+	}
+	for _, fn := range c.SrcFuncs("internal/encode") {
+		if fn.Parent() != nil || !ast.IsExported(fn.Name()) || fn.Signature.Recv() != nil || !strings.HasPrefix(fn.Name(), "Encode") {
+			continue
+		}
+		key := fnKey(fn) + "/reaches-grow/" + part
+		if reaches(fn, map[*ssa.Function]bool{}) {
+			r.R.OK(key, fn.Pos(), "the encoder appends through an analysed buffer.Grow region")
+		} else {
+			r.R.Unk(key, fn.Pos(), "no buffer.Grow reachable from this encoder: the region rules do not see how it appends")
+		}
+	}
 }
 
 // partR forwards only the obligations whose key ends in "/<part>".
@@ -305,42 +343,76 @@ func writtenOnAllPaths(fn *ssa.Function, g *ssa.Call, grp []wInterval) bool {
 // tableLoopCoverage handles  p := b.Grow(len(table)*S); off := 0; for range table { q := p[off:off+S]; ...; off += S }.
 // Returns handled=false if the Grow is not of that shape.
 func tableLoopCoverage(c *Ctx, e *BE, fn *ssa.Function, g *ssa.Call, N Lin) (string, bool) {
-	// find q = Slice(p, off, off+S) with off a loop phi
+	// find the entry slice q = p[lo : lo+S] inside a loop, lo being either a running offset (phi: 0, +S) or
+	// index*S with index the loop's induction variable over the table
 	var q *ssa.Slice
 	allInstrs(fn, func(i ssa.Instruction) {
 		if sl, ok := i.(*ssa.Slice); ok && sl.X == ssa.Value(g) && sl.Low != nil && sl.High != nil {
-			if _, isPhi := sl.Low.(*ssa.Phi); isPhi {
+			switch lo := sl.Low.(type) {
+			case *ssa.Phi:
 				q = sl
+			case *ssa.BinOp:
+				if lo.Op == token.MUL {
+					q = sl
+				}
 			}
 		}
 	})
 	if q == nil {
 		return "", false
 	}
-	off := q.Low.(*ssa.Phi)
-	S := q.High
-	hb, ok := S.(*ssa.BinOp)
-	if !ok || hb.Op != token.ADD || hb.X != ssa.Value(off) {
+	hb, ok := q.High.(*ssa.BinOp)
+	if !ok || hb.Op != token.ADD || (hb.X != q.Low && hb.Y != q.Low) {
 		return "entry slice is not p[off:off+S]", true
 	}
 	size := hb.Y // S
-	// off: init 0, step off+S
-	okInit, okStep := false, false
-	for _, ed := range off.Edges {
-		if isConstInt(ed, 0) {
-			okInit = true
-		}
-		if sb, ok := ed.(*ssa.BinOp); ok && sb.Op == token.ADD && sb.X == ssa.Value(off) && sb.Y == size {
-			okStep = true
-		}
-	}
-	if !okInit || !okStep {
-		return "the entry offset does not advance from 0 by the entry size", true
+	if hb.Y == q.Low {
+		size = hb.X
 	}
 	// N == len(table) * S
 	nb, ok := g.Call.Args[0].(*ssa.BinOp)
 	if !ok || nb.Op != token.MUL || !(nb.Y == size || nb.X == size) {
 		return "the grown size is not len(table) * entry size", true
+	}
+	switch off := q.Low.(type) {
+	case *ssa.Phi:
+		// running offset: init 0, step off+S, one step per visited table entry
+		okInit, okStep := false, false
+		for _, ed := range off.Edges {
+			if isConstInt(ed, 0) {
+				okInit = true
+			}
+			if sb, ok := ed.(*ssa.BinOp); ok && sb.Op == token.ADD && ((sb.X == ssa.Value(off) && sb.Y == size) || (sb.Y == ssa.Value(off) && sb.X == size)) {
+				okStep = true
+			}
+		}
+		if !okInit || !okStep {
+			return "the entry offset does not advance from 0 by the entry size", true
+		}
+	case *ssa.BinOp:
+		// offset = index * S with the index visiting every entry of the table whose length sized the region
+		idx := off.X
+		if off.X == size {
+			idx = off.Y
+		} else if off.Y != size {
+			return "the entry offset is not index * entry size", true
+		}
+		lenCall := nb.X
+		if nb.X == size {
+			lenCall = nb.Y
+		}
+		var table ssa.Value
+		if lc, ok := lenCall.(*ssa.Call); ok {
+			if b, ok := lc.Call.Value.(*ssa.Builtin); ok && b.Name() == "len" && len(lc.Call.Args) == 1 {
+				table = lc.Call.Args[0]
+			}
+		}
+		if table == nil {
+			return "the grown size is not len(table) * entry size", true
+		}
+		if ok, why := loopPhiCoversAll(idx, table); !ok {
+			return "the entry index does not visit every table entry: " + why, true
+		}
 	}
 	// every path through the loop body writes q fully: case split on the entry-size phi (big / small)
 	ivs := e.writesInto(fn, q)
